@@ -86,6 +86,8 @@ def rules(ctx):
         ctx.decide(o, ok and not others and ("param:1" in src or "param:2" in src),
                    "response <- solve_instance(extracted body); nothing else feeds the argument",
                    "handler result does not come from solve_instance(own body) (other sources: %s)" % others)
+    from .C16 import every_vehicle_type
+    every_vehicle_type(ctx, "server::solve_instance", "R2.server")
     purity.no_global_state(ctx, "R3.no-global-state")
     purity.no_interior_mutability(ctx, "R3.no-interior-mutability")
     purity.no_unsafe(ctx, "R3.no-unsafe")
